@@ -52,6 +52,7 @@
      - how the subscription id is chosen; closing of subscriptions (C04/C06). *)
 From JV Require Import Base.Bytes Base.Dec Base.Utf8 Json.Json Json.JsonSer Json.JsonParse Json.JsonWf.
 From JV Require Model.Params Model.Builder Model.Wire Model.Registry.
+From JV Require Gen.ErrorConstsGen.     (* the library's messages and codes, regenerated from types/src/error.rs *)
 Local Open Scope N_scope.
 
 (* ================================================================ 1. heck 0.5: snake_case / lowerCamelCase (ASCII) *)
@@ -648,9 +649,9 @@ Definition the_id : Wire.id := Wire.IdNum 0.
 Definition the_sid : Wire.subid := Wire.SubNum 1.
 
 Definition err_invalid_params (c : Z) : Wire.errobj :=
-  {| Wire.e_code := c; Wire.e_message := b#"Invalid params"; Wire.e_data := None |}.
+  {| Wire.e_code := c; Wire.e_message := ErrorConstsGen.invalid_params_msg; Wire.e_data := None |}.
 Definition err_not_found : Wire.errobj :=
-  {| Wire.e_code := (-32601)%Z; Wire.e_message := b#"Method not found"; Wire.e_data := None |}.
+  {| Wire.e_code := ErrorConstsGen.method_not_found_code; Wire.e_message := ErrorConstsGen.method_not_found_msg; Wire.e_data := None |}.
 
 (* result of a call through the response round trip *)
 Definition answer_view (rt : jty) (r : hres json) : client_view :=
